@@ -161,7 +161,7 @@ func VerifC14Assoc(n, keyMode, tstMode, fn, nilAt int) {
 	}
 	form = append(form, zzC14Quote(aobj))
 	form = append(form, zzC14KeyTestArgs(keyMode, tstMode)...)
-	vrt.Carve("C14-nil-designator-rejected", n == 0)
+	vrt.Carve("C14-valid-args-rejected", n == 0)
 	vrt.Carve("C14-assoc-test-args-swapped", !isIf && tstMode == 3)
 	out := zzC14Eval(scope, form)
 	vrt.Reach("compared")
